@@ -5,6 +5,10 @@ composition history as a state machine; ImgFiles.tla holds the acceptance automa
  MC    : BinImageMC (composition histories on a small menu, action lemmas) and BinImageTrees (every tree of a bounded space
          is an initial state; lemmas on each)
  GEN   : BinImageTrees emits every tree, BinImageGen emits histories (exhaustive on small menus, -simulate on big ones)
+ OFFS  : BinImageOffs enumerates trees by the OFFSET CLASS of every image below the root (wholly in front of its parent / straddling
+         offset 0 / at 0 / inside / touching the end / sticking out behind / wholly behind), for images without sub-images and for
+         images that hold sub-images, at depth 2..4, inside parents with explicit and derived size; TLC emits the realised class of
+         every image with the tree and the driver demands that every cell was reached by a tree with no other defect
  CFG   : BinImageCfg enumerates merge configurations (regions in listing order: pattern blocks, plain binary files, HEX / S19 files
          with their own addresses; offset given - 0 included - or omitted; any listing order) and checks the configuration lemmas;
          each is built through the real BinaryImage.load_from_config (dictionary / YAML / JSON + check_config) and the resulting
@@ -321,8 +325,9 @@ def replay_tree(nodes, tid, r, fmt=None, all_nodes=False):
     return {"id": tid, "ev": evs, "recipe": recipe, "cls": cls}
 
 
-def random_tree(r, big=False):
-    """Seeded random tree beyond the enumerated space (depth <= 4, bigger numbers, all patterns)."""
+def random_tree(r, big=False, front=False):
+    """Seeded random tree beyond the enumerated space (depth <= 4, bigger numbers, all patterns); front: one image below the root
+    (with or without sub-images, at any depth) is moved in front of its parent (negative offset: wholly in front or straddling 0)."""
     n = r.randrange(1, 8 if big else 6)
     nodes = []
     depth = {0: 0}
@@ -338,11 +343,15 @@ def random_tree(r, big=False):
         pat = r.choice(PAT_MENU)
         data = [data_byte(k, i) for i in range(bl)] if r.random() < 0.5 else [r.randrange(256) for _ in range(bl)]
         nodes.append({"par": par, "off": off, "size": size, "al": al, "data": data, "pat": pat})
+    if front and n >= 2:
+        nd = r.choice(nodes[1:])
+        nd["off"] = -r.choice([1, 1, 2, 3, max(1, nd["size"] or len(nd["data"])), r.randrange(1, 64)])
     return nodes
 
 
-def packed_tree(r, big=False):
-    """Random tree that is valid by construction (children one after the other with small gaps): feeds the format lanes."""
+def packed_tree(r, big=False, front=False):
+    """Random tree that is valid by construction (children one after the other with small gaps): feeds the format lanes.
+    front: afterwards ONE image below the root is moved in front of its parent - the only defect of the tree."""
     nodes = []
 
     def up(n, a):
@@ -370,6 +379,9 @@ def packed_tree(r, big=False):
         return k, up(nd["size"] or end, al)
 
     sub(r.randrange(1, 4), 0)
+    if front and len(nodes) >= 2:
+        nd = r.choice(nodes[1:])
+        nd["off"] = -r.choice([1, 2, max(1, nd["size"] or len(nd["data"])), r.randrange(1, 40)])
     return nodes
 
 
@@ -406,7 +418,7 @@ def concretise_cfg(abstract, r):
         nseg = 2 if kind == "hex2" else 1
         base = 0
         if kind != "bin" and hasoff:
-            base = land if r.random() < 0.25 else r.choice(FILE_BASES)   # base = landing offset: `offset: 0` on a file with addresses
+            base = land if land >= 0 and r.random() < 0.25 else r.choice(FILE_BASES)   # base = landing offset: `offset: 0` on a file with addresses
         segs, at = [], base
         for i in range(nseg):
             ln = n if i == 0 else r.choice([1, 2, 5])
@@ -418,19 +430,29 @@ def concretise_cfg(abstract, r):
     return {"size": size, "al": al, "pat": r.choice(PAT_MENU[1:]), "regions": regions}
 
 
-def random_cfg(r, big=False):
-    """Seeded random configuration beyond the enumerated space (1..5 regions, bigger numbers, 1..3 segments per file, empty blocks)."""
+def random_cfg(r, big=False, front=False):
+    """Seeded random configuration beyond the enumerated space (1..5 regions, bigger numbers, 1..3 segments per file, empty blocks);
+    front: one region with an offset lands below 0.  (Nothing is listed behind regions that all end below 0: what "after the previous one"
+    means there is not settled, and load_from_config refuses such a configuration itself - see Listable in BinImageCfg.tla.)"""
     al = r.choice([1, 1, 2, 4, 8, 16, 3])
     regs, w, cur = [], 2, 0
     nreg = r.randrange(1, 6)
-    for _ in range(nreg):
-        hasoff = r.random() < 0.6
+    neg_at = r.randrange(nreg) if front else -1
+    top = None                                            # end of everything listed so far (None: nothing listed)
+    for k in range(nreg):
+        if top is not None and top < 0:
+            break
+        hasoff = r.random() < 0.6 or k == neg_at
         land = r.choice([0, 0, 1, 4, 8, 16, cur, cur + r.randrange(0, 9), r.randrange(0, 400 if big else 64)]) if hasoff else 0
+        if k == neg_at:
+            land = -r.choice([1, 2, 3, 4, 8, r.randrange(1, 64)])
         if r.random() < 0.45:
             n = r.choice([0, 1, 2, 3, 4, 7, 8, 16, 33] + ([100, 300] if big else []))
             regs.append({"kind": "block", "hasoff": hasoff, "off": land, "size": n, "pat": r.choice(PAT_MENU[2:]), "segs": [], "fmt": "-"})
             w += 1
             cur = max(cur, land + n)
+            end = land + n if hasoff else 0                # (only the sign of `top` is used: a region without offset ends at or behind 0)
+            top = end if top is None else max(top, end)
             continue
         fmt = r.choice(["BIN", "BIN", "HEX", "S19"])
         nseg = 1 if fmt == "BIN" else r.randrange(1, 4)
@@ -443,6 +465,8 @@ def random_cfg(r, big=False):
         regs.append({"kind": "file", "hasoff": hasoff, "off": land - base, "size": 0, "pat": NONE_PAT, "segs": segs, "fmt": fmt})
         w += 1 + nseg
         cur = max(cur, land + segs[-1]["at"] + len(segs[-1]["d"]) - base)
+        end = land + segs[-1]["at"] + len(segs[-1]["d"]) - base if hasoff else 0
+        top = end if top is None else max(top, end)
     size = r.choice([0, 0, 0, 0, cur, cur + r.randrange(0, 20), r.randrange(1, 80)])
     return {"size": size, "al": al, "pat": r.choice(PAT_MENU[1:]), "regions": regs}
 
@@ -602,8 +626,8 @@ def cfg_place_class(ev):
     for k, (reg, p) in enumerate(zip(cfg["regions"], ev["place"])):
         first = reg["segs"][0]["at"] if reg["kind"] == "file" else 0
         rlen = reg["segs"][-1]["at"] + len(reg["segs"][-1]["d"]) - first if reg["kind"] == "file" else reg["size"]
-        allowed = {reg["off"] + first} if reg["hasoff"] else {up(ends[-1] if ends else 0), up(max(ends, default=0))}
-        if p not in allowed or p < 0:
+        allowed = {reg["off"] + first} if reg["hasoff"] else {up(e) for e in (ends[-1] if ends else 0, max(ends, default=0)) if e >= 0}
+        if p not in allowed:
             off = ("offset-given-0" if reg["off"] == 0 else "offset-given") if reg["hasoff"] else "offset-omitted"
             return f"place/{off}/{'overall-size-explicit' if cfg['size'] else 'overall-size-derived'}/{'first-region' if k == 0 else 'later-region'}"
         ends.append(p + rlen)
@@ -667,7 +691,8 @@ def random_history(tid, r, steps):
                 size = r.choice([0, 0, 0, bl, bl + 1, r.randrange(1, 40)])
                 if size and (size + al - 1) // al * al < bl:
                     size = 0
-                a = {"a": "New", "n": n, "off": r.choice([0, 0, 1, 2, 3, 4, 7, 8, 15, 16, r.randrange(0, 40)]), "size": size, "al": al,
+                off = -r.choice([1, 2, 4, 9]) if r.random() < 0.06 else r.choice([0, 0, 1, 2, 3, 4, 7, 8, 15, 16, r.randrange(0, 40)])
+                a = {"a": "New", "n": n, "off": off, "size": size, "al": al,
                      "data": [data_byte(n, i) for i in range(bl)] if r.random() < 0.7 else [r.randrange(256) for _ in range(bl)],
                      "pat": RAND if r.random() < 0.03 else r.choice(PAT_MENU)}
         elif k <= 6:
@@ -827,10 +852,20 @@ def boundary_class(t, upto):
     for e in t["ev"][:upto + 1]:
         if "len" in e and "abs" in e and isinstance(e["len"], list):
             last = e
+    if t["recipe"]["kind"] == "cfg":
+        place = next((e["place"] for e in t["ev"] if e["a"] == "Config"), [])
+        kinds = {reg["kind"] for reg, p in zip(t["recipe"]["cfg"]["regions"], place) if p < 0}
+        return "layout" if not kinds else "region-in-front-of-image/" + ("block" if kinds == {"block"} else "file")
+    if t["recipe"]["kind"] == "hist":
+        return "layout/image-created-with-negative-offset" if any(a["a"] == "New" and a["off"] < 0 for a in t["recipe"]["hist"]) else "layout"
     if last is None or t["recipe"]["kind"] != "tree":
         return "layout"
     nodes, ln = t["recipe"]["nodes"], last["len"]
     stick, over = None, None
+    if any(nd["par"] and nd["off"] < 0 for nd in nodes):
+        kids = {nd["par"] for nd in nodes}
+        leaf = all(k not in kids for k, nd in enumerate(nodes, start=1) if nd["par"] and nd["off"] < 0)
+        return "child-in-front-of-parent/" + ("image-without-sub-images" if leaf else "image-with-sub-images")
     for k, nd in enumerate(nodes, start=1):
         if nd["par"]:
             s = nd["off"] + ln[k - 1] - ln[nd["par"] - 1]
@@ -948,8 +983,34 @@ def canary_good():
             ev += [{"a": "Validate", "n": 1, "res": "ok"}, {"a": "Export", "n": 1, "ex": "ok", "d": data}]
         return {"id": tid, "cls": "cfg", "recipe": {"kind": "cfg", "cfg": cfg, "entry": "dict", "adjust": False, "all_nodes": False}, "ev": ev}
 
+    # -- a child in FRONT of its parent (negative offset): validate() must report it; export() of such a tree is not asserted
+    zeros = {"kind": "zeros", "b": []}
+    fnodes = [{"par": 0, "off": 0, "size": 8, "al": 1, "data": [], "pat": zeros},
+              {"par": 1, "off": -2, "size": 0, "al": 1, "data": [1, 2, 3, 4], "pat": none}]        # straddles offset 0, no sub-images
+    front = {"id": "front-good", "cls": "tree", "recipe": {"kind": "tree", "nodes": fnodes, "fmt": None, "all_nodes": True}, "ev": [
+        {"a": "Tree", "nodes": fnodes, "len": [8, 4], "abs": [0, -2]},
+        {"a": "Validate", "n": 1, "res": "error"},
+        {"a": "Export", "n": 1, "ex": "raised:ValueError", "d": []},          # (whatever export() does with an invalid tree)
+        {"a": "Validate", "n": 2, "res": "ok"},                                # (the image on its own: its own offset is no part of its tree)
+        {"a": "Export", "n": 2, "ex": "ok", "d": [1, 2, 3, 4]}]}
+    dnodes = [{"par": 0, "off": 0, "size": 64, "al": 1, "data": [], "pat": zeros}, {"par": 1, "off": 16, "size": 32, "al": 1, "data": [], "pat": ones},
+              {"par": 2, "off": 8, "size": 16, "al": 1, "data": [], "pat": inc}, {"par": 3, "off": 4, "size": 2, "al": 1, "data": [], "pat": ones},
+              {"par": 3, "off": -3, "size": 2, "al": 1, "data": [], "pat": {"kind": "bytes", "b": [238]}}]   # depth 4, wholly in front of `low`
+    deep = {"id": "front-deep-good", "cls": "tree", "recipe": {"kind": "tree", "nodes": dnodes, "fmt": None, "all_nodes": False}, "ev": [
+        {"a": "Tree", "nodes": dnodes, "len": [64, 32, 16, 2, 2], "abs": [0, 16, 24, 28, 21]},
+        {"a": "Validate", "n": 1, "res": "error"}]}
+    fcfg = {"size": 16, "al": 1, "pat": zeros, "regions": [
+        {"kind": "block", "hasoff": True, "off": 4, "size": 4, "pat": ones, "segs": []},
+        {"kind": "block", "hasoff": True, "off": -4, "size": 2, "pat": inc, "segs": []}]}
+
+    def fcfg_trace(tid, place, ab, res):
+        return {"id": tid, "cls": "cfg", "recipe": {"kind": "cfg", "cfg": fcfg, "entry": "dict", "adjust": False, "all_nodes": False},
+                "ev": [{"a": "Config", "cfg": fcfg, "place": place, "len": [16, 4, 2], "abs": ab}, {"a": "Validate", "n": 1, "res": res}]}
+
     a5 = 165
-    return [good, hist,
+    return [good, hist, front, deep, fcfg_trace("cfg-front-good", [4, -4], [0, 4, -4], "error"),
+            # a self-consistent tree the configuration does not describe: the negative offset clamped to 0
+            fcfg_trace("bad-cfg-front-clamped", [4, 0], [0, 4, 0], "ok"),
             # the block without offset behind everything listed before it (18 -> 20 bytes) ...
             cfg_trace("cfg-good", [8, 0, 16], [20, 6, 3, 3, 2], [0, 8, 0, 0, 16], [129, 130, 131] + [a5] * 5 + [255] * 6 + [a5] * 2 + [0, 1] + [a5] * 2),
             # ... or behind the region listed just before it (both readings of "after previous one" are allowed)
@@ -993,6 +1054,10 @@ def canary(v):
     variant("bad-len", lambda ev: ev[0]["len"].__setitem__(0, ev[0]["len"][0] + 4))
     variant("bad-abs", lambda ev: ev[0]["abs"].__setitem__(2, ev[0]["abs"][2] + 1))
     variant("bad-valid", lambda ev: ev[1].__setitem__("res", "error"))
+    variant("bad-valid-front", lambda ev: ev[1].__setitem__("res", "ok"), src="front-good")             # a child in front of its parent accepted
+    variant("bad-valid-front-deep", lambda ev: ev[1].__setitem__("res", "ok"), src="front-deep-good")
+    variant("bad-valid-front-cfg", lambda ev: ev[1].__setitem__("res", "ok"), src="cfg-front-good")
+    variant("bad-abs-front", lambda ev: ev[0]["abs"].__setitem__(1, 2), src="front-good")
     variant("bad-byte", lambda ev: ev[2]["d"].__setitem__(5, ev[2]["d"][5] ^ 1))
     variant("bad-pad", lambda ev: ev[2]["d"].__setitem__(len(ev[2]["d"]) - 1, ev[2]["d"][-1] ^ 0x80))
     variant("bad-cksum", lambda ev: ev[3]["recs"][0]["b"].__setitem__(-1, ev[3]["recs"][0]["b"][-1] ^ 1))
@@ -1008,7 +1073,8 @@ def canary(v):
     expect = {t["id"] for t in traces if str(t["id"]).startswith("bad")}
     if set(rej) != expect:
         raise Machinery(f"canary failed: rejected {sorted(rej)}, expected {sorted(expect)}")
-    v.extra["canary"] = (f"{len(traces) - len(expect)} stored uncorrupted traces accepted (tree + HEX round trip, history, merge configuration under both readings); "
+    v.extra["canary"] = (f"{len(traces) - len(expect)} stored uncorrupted traces accepted (tree + HEX round trip, history, merge configuration under both readings, "
+                         "images / regions in front of their parent refused by validate()); "
                          f"{len(expect)} corrupted / non-conformant traces rejected: {sorted(expect)}")
     return good
 
@@ -1057,6 +1123,35 @@ class Pipeline:
                         {"recipe": t["recipe"], "trace": strip(t), "failed_event": matched + 1})
 
 
+OUT_CLASSES = ("front", "cross", "over", "behind")
+IN_CLASSES = ("zero", "inside", "touch")
+
+
+def offs_reach(offs):
+    """The cells of the offset-class lane that TLC's enumeration has to reach (class realised in the finished tree, computed by TLC):
+    every way of sticking out x image without / with sub-images x depth 2..4 x parent with explicit / derived size (behind the end: explicit
+    only, a derived parent grows) by a tree in which that image is the ONLY defect; every fitting class by a valid tree.  -> (reached, missing)"""
+    sole, fits = {}, {}
+    for nodes, info, clashes in offs:
+        out = [k for k, x in enumerate(info) if x[4] == 1]
+        for k, (depth, leaf, cls, pexp, sticks) in enumerate(info):
+            if cls == "root":
+                continue
+            if clashes == 0 and out == [k]:
+                sole[(cls, leaf, depth, pexp)] = sole.get((cls, leaf, depth, pexp), 0) + 1
+            if clashes == 0 and not out:
+                fits[(cls, leaf, depth)] = fits.get((cls, leaf, depth), 0) + 1
+    missing = []
+    for depth in (2, 3, 4):
+        for leaf in (1, 0):
+            if depth == 4 and not leaf:
+                continue   # (an image with sub-images at depth 4 needs a fifth level)
+            missing += [("only-defect", c, leaf, depth, pexp) for c in OUT_CLASSES for pexp in ((1, 0) if c in ("front", "cross") else (1,))
+                        if not sole.get((c, leaf, depth, pexp))]
+            missing += [("valid", c, leaf, depth) for c in IN_CLASSES if not fits.get((c, leaf, depth))]
+    return {"only_defect": {"/".join(map(str, k)): n for k, n in sorted(sole.items())}, "valid": {"/".join(map(str, k)): n for k, n in sorted(fits.items())}}, missing
+
+
 FMTS = ["BIN", "HEX", "S19"]
 BNAMES = ["0", "2^31", "2^32-16-len", "2^32-len", "rand32", "2^16+", "small", "straddle-2^16", "straddle-2^31"]
 EXECS = ["none", "base", "rand", "top", "zero"]
@@ -1082,10 +1177,16 @@ def run(tier):
     jobs.append(("run", ("C16", "BinImageGen", "BinImageGenSim.cfg"), dict(env={"GEN_DEPTH": 10, "GEN_MODE": "sim", "GEN_NODES": 0}, workers=1, deadlock=False,
                                                                            simulate=f"num={n_sim}", depth=14, heap="4g", timeout=2400)))
     jobs.append(("mc", ("C16", "BinImageCfg", "BinImageCfg.cfg" if quick else "BinImageCfg_t.cfg"), dict(coverage=False, workers=2 if quick else 4, heap="4g", timeout=2400)))
+    # regions that land in front of the merged image / trees by the offset class of every image
+    neg_cfgs = ["BinImageCfg_neg.cfg"] if quick else ["BinImageCfg_neg.cfg", "BinImageCfg_neg_t.cfg"]   # (<= 2 regions, 2 / 4 bytes in front; <= 3 regions, 2 bytes)
+    jobs += [("mc", ("C16", "BinImageCfg", cfg), dict(coverage=False, workers=2 if quick else 4, heap="4g", timeout=2400)) for cfg in neg_cfgs]
+    jobs.append(("mc", ("C16", "BinImageOffs", "BinImageOffs.cfg" if quick else "BinImageOffs_t.cfg"), dict(coverage=False, workers=2 if quick else 4, heap="4g", timeout=2400)))
     res = prun(jobs)
+    offs_res = res.pop()
+    cfgneg_res = [res.pop() for _ in neg_cfgs]
     cfg_res = res.pop()
     mc, tree_res, gen_res, sim_res = res[0], res[1:1 + len(tree_cfgs)], res[1 + len(tree_cfgs):-1], res[-1]
-    for x in res[:-1] + [cfg_res]:
+    for x in res[:-1] + [cfg_res] + cfgneg_res + [offs_res]:
         v.add_mc(x)
     say(f"[C16] MC histories: {mc.distinct} states; TLC generation done ({v.timer.s()}s)")
     pipe = Pipeline(v, jobs=8 if quick else 12, limit=10**9 if quick else 150000)
@@ -1116,14 +1217,45 @@ def run(tier):
             say(f"[C16] {off + len(part)} enumerated trees replayed on real BinaryImage objects ({v.timer.s()}s)")
         n_abstract += len(abstract)
 
+    # ---- every tree of the offset-class space (front / behind, images without and with sub-images, depth 2..4)
+    offs = [json.loads(x) for x in sorted({json.dumps(x) for x in offs_res.json_prints()})]
+    offs_res.out = ""
+    if len(offs) != offs_res.distinct:
+        raise Machinery(f"offset-class GEN emitted {len(offs)} trees for {offs_res.distinct} states")
+    reached, missing = offs_reach(offs)
+    if missing:
+        raise Machinery(f"offset-class GEN did not reach: {missing[:12]}")
+    v.extra["offset_class_cells"] = reached
+
+    def do_offs(ia):
+        i, a = ia
+        rr = rng(PROP, "offs", i)
+        t = replay_tree(concretise_tree(a[0], rr), 90000000 + i, rr, all_nodes=(i % 3 == 0))
+        t["cls"] = "offs"
+        return t
+
+    traces = pmap(do_offs, list(enumerate(offs)), chunksize=128)
+    pipe.feed(traces, sample_at=len(traces) // 2)
+    n_front = sum(1 for a in offs if any(x[2] in ("front", "cross") for x in a[1]))
+    say(f"[C16] {len(offs)} trees of the offset-class space replayed ({n_front} with an image in front of its parent; {v.timer.s()}s)")
+
     import bincopy  # noqa: F401 - imported once here, not in every forked worker
     import spsdk.utils.schema_validator  # noqa: F401
 
     # ---- every merge configuration of the bounded space, built through the real load_from_config (dictionary / YAML / JSON in turn)
-    acfgs = sorted(cfg_res.json_prints(), key=json.dumps)   # TLC prints in the order its workers reach the states: fix the numbering
-    cfg_res.out = ""
-    if len(acfgs) < 1000 or cfg_res.distinct <= len(acfgs):   # Config is the only action: it fired iff there are states besides the initial one
-        raise Machinery(f"configuration GEN emitted {len(acfgs)} configurations for {cfg_res.distinct} states")
+    acfgs = []
+    for g in [cfg_res] + cfgneg_res:
+        got = g.json_prints()
+        g.out = ""
+        if len(got) < 1000 or g.distinct <= len(got):   # Config is the only action: it fired iff there are states besides the initial one
+            raise Machinery(f"configuration GEN emitted {len(got)} configurations for {g.distinct} states")
+        acfgs += got
+    # TLC prints in the order its workers reach the states: fix the numbering (the two enumerations share the configurations without a negative offset)
+    acfgs = [json.loads(x) for x in sorted({json.dumps(x) for x in acfgs})]
+    front_kinds = {(reg[0], len(a[2])) for a in acfgs for reg in a[2] if reg[1] and reg[2] < 0}
+    lacking = [(kd, n) for kd in ("block", "bin", "hex1", "hex2") for n in (1, 2) if (kd, n) not in front_kinds]
+    if lacking:
+        raise Machinery(f"configuration GEN: no region in front of the merged image for {lacking}")
     n_rcfg = 600 if quick else 8000
 
     def do_cfg(ia):
@@ -1133,7 +1265,7 @@ def run(tier):
 
     def do_rcfg(i):
         rr = rng(PROP, "rcfg", i)
-        return replay_config(random_cfg(rr, big=(i % 10 == 0)), 80000000 + i, rr, entry=entry_of(i), adjust=(i % 7 == 3), all_nodes=(i % 4 == 0))
+        return replay_config(random_cfg(rr, big=(i % 10 == 0), front=(i % 6 == 2)), 80000000 + i, rr, entry=entry_of(i), adjust=(i % 7 == 3), all_nodes=(i % 4 == 0))
 
     traces = pmap(do_cfg, list(enumerate(acfgs)), chunksize=64) + pmap(do_rcfg, range(n_rcfg), chunksize=32)
     pipe.feed(traces, sample_at=len(acfgs) // 3)
@@ -1147,12 +1279,12 @@ def run(tier):
 
     def do_rand(i):
         rr = rng(PROP, "rand", i)
-        return replay_tree(random_tree(rr, big=(i % 10 == 0)), 10000000 + i, rr, all_nodes=(i % 4 == 0),
+        return replay_tree(random_tree(rr, big=(i % 10 == 0), front=(i % 8 == 5)), 10000000 + i, rr, all_nodes=(i % 4 == 0),
                            fmt={"fmt": rr.choice(FMTS), "base": rr.choice(BNAMES), "exec": rr.choice(EXECS)})
 
     def do_pack(i):
         rr = rng(PROP, "pack", i)
-        return replay_tree(packed_tree(rr, big=(i % (40 if quick else 8) == 0)), 20000000 + i, rr,
+        return replay_tree(packed_tree(rr, big=(i % (40 if quick else 8) == 0), front=(i % 7 == 4)), 20000000 + i, rr,
                            fmt={"fmt": FMTS[i % 3], "base": BNAMES[(i // 3) % len(BNAMES)], "exec": rr.choice(EXECS)})
 
     traces = pmap(do_rand, range(n_rand), chunksize=64) + pmap(do_pack, range(n_pack), chunksize=64)
@@ -1201,17 +1333,23 @@ def run(tier):
     say(f"[C16] {pipe.n_traces} traces, {pipe.n_events} events, {pipe.n_fmt} file round trips decided by TLC ({v.timer.s()}s)")
     v.cov["rule"] = (
         f"trees = every tree of the bounded space enumerated by TLC ({n_abstract}: <= {3 if quick else 4} images, offsets/sizes/alignments/binary lengths from small menus) "
-        f"+ {n_rand} seeded random trees (depth <= 4, offsets < 300, lengths <= 600, alignment 1..16, 8 patterns) + {n_pack} valid-by-construction trees; "
+        f"+ every tree of the offset-class space enumerated by TLC ({len(offs)}: 2..4 images, every image below the root - without or with sub-images, depth 2..4, parent size explicit "
+        f"or derived - wholly in front of its parent / straddling offset 0 / at 0 / inside / touching the end / sticking out behind / wholly behind; every cell reached by a tree "
+        f"with no other defect, see offset_class_cells) "
+        f"+ {n_rand} seeded random trees (depth <= 4, offsets < 300, lengths <= 600, alignment 1..16, 8 patterns; every 8th with one image in front of its parent) "
+        f"+ {n_pack} valid-by-construction trees (every 7th with one image moved in front of its parent as the only defect); "
         f"merge configurations = every configuration of the bounded space enumerated by TLC ({len(acfgs)}: <= 3 regions in listing order, each a pattern block / binary file / "
-        f"HEX or S19 file with one or two segments, offset given (0 included) or omitted, overall size derived with alignment 1 / 4 or explicit with alignment 1) + {n_rcfg} seeded random ones "
-        f"(<= 5 regions, <= 3 segments, file addresses < 2^30, negative offsets), built through load_from_config from a dictionary (13 of 16), a YAML file (2 of 16) or a JSON file (1 of 16; files go through load_configuration + check_config), every 7th followed by update_offsets; "
+        f"HEX or S19 file with one or two segments, offset given (0 included; with <= 2 regions also landing 2 / 4 bytes in front of the merged image" + ("" if quick else ", with 3 regions 2 bytes") + f") or omitted, "
+        f"overall size derived with alignment 1 / 4 or explicit with alignment 1) + {n_rcfg} seeded random ones "
+        f"(<= 5 regions, <= 3 segments, file addresses < 2^30, negative offsets; every 6th with one region that lands below 0), built through load_from_config from a dictionary (13 of 16), a YAML file (2 of 16) or a JSON file (1 of 16; files go through load_configuration + check_config), every 7th followed by update_offsets; "
         f"histories = behaviours of length 5{'' if quick else ' / 6'} over small per-image menus (creation first; 2 images: all, 3 images: {'seeded subset' if quick else 'all / seeded subset'}) "
-        f"+ {len(sim)} simulated behaviours of length 10 over big menus + {n_rh} seeded random histories chosen against the real objects; every {fmt_every}th enumerated tree and "
+        f"+ {len(sim)} simulated behaviours of length 10 over big menus (1 offset of 16 negative) + {n_rh} seeded random histories chosen against the real objects (6 % of the images "
+        f"created with a negative offset); every {fmt_every}th enumerated tree and "
         f"every sampled valid tree goes through one BIN/HEX/S19 round trip at one of 9 base-address classes; {n_raw} HEX/S19 files of an independent encoder are loaded; "
         "distinct by (class, inputs), non-trivial = at least one validate() or load observation was decided by TLC"
     )
     v.cov["exhaustive"] = True
-    v.cov["checker_cmd"] = "TLC BinImageMC (lemmas over histories); TLC BinImageTrees (lemmas + enumeration); TLC BinImageCfg (configuration lemmas + enumeration); TLC BinImageGen (histories); TLC BinImageTrace (decides every observation)"
+    v.cov["checker_cmd"] = "TLC BinImageMC (lemmas over histories); TLC BinImageTrees (lemmas + enumeration); TLC BinImageOffs (offset classes: lemmas + enumeration); TLC BinImageCfg (configuration lemmas + enumeration); TLC BinImageGen (histories); TLC BinImageTrace (decides every observation)"
     v.cov["trusted_base"] = ["TLC", "hex-pair tokenisation of file lines (bytes.fromhex)", "Python's own text decoding for the `textlike` fact",
                              "the independent HEX/S19 encoder of the raw-file lane (its output is itself decoded by the TLA+ automata before it counts)"]
     v.assumptions += [
@@ -1223,9 +1361,13 @@ def run(tier):
         "multi-byte / inc patterns: phase counted from the start of the image that owns the gap; rand patterns: length only, no file round trip",
         "HEX / S19 files need not store gap bytes owned by an image without pattern (if present their value is free: SPSDK writes an enclosing image's pattern there, BIN has zeros)",
         "a BIN payload that is itself decodable text (or starts with the ELF magic) may be loaded as whatever the sniffer sees (inherent ambiguity); only a refused load is reported",
-        "execution start address: asserted for HEX / S19 when one was set; offsets are non-negative; images end at or below 2^32; empty images are not saved",
+        "execution start address: asserted for HEX / S19 when one was set; images end at or below 2^32; empty images are not saved",
+        "a child at a negative offset sticks out of its parent (in front), also when it has no byte at all (as a child without bytes placed behind the end does); for such "
+        "trees only the verdict of validate() is asserted (no export(), no absolute address of images below an image without bytes); validate() of an image whose OWN offset "
+        "is negative (a root, or a sub-image validated on its own): verdict not asserted - the clause speaks about children inside their parents (the code refuses it)",
         "merge configuration: an omitted offset may be read as 'behind the region listed just before' or 'behind all regions listed before' (both accepted; they coincide for "
-        "listings in address order); the first region without offset starts at 0; a HEX / S19 region file with non-zero addresses and no offset, a region that lands below 0, "
+        "listings in address order); the first region without offset starts at 0; a region WITH an offset that lands below 0 is a child in front of the merged image (validate() must "
+        "refuse); a HEX / S19 region file with non-zero addresses and no offset, a region (with or without offset) listed behind regions that all end below 0 (load_from_config refuses the configuration itself: 'Wrong alignment'), "
         "numbers written as quoted strings (the schema allows them, load_from_config does not convert them: TypeError) and ELF region files are outside the domain; gaps between the "
         "segments of a region file hold the pattern of the merge (the file has none of its own)",
         "the nxpimage CLI wrappers (binary-image create / merge / convert) are not driven themselves; the merge lane calls what `binary-image merge` calls "
